@@ -135,7 +135,9 @@ def region_shared_source_under_slices(case):
         # these build their result from several slices of ONE input (pad: edge pieces + body; roll: two pieces;
         # diff: x[1:] - x[:-1]): the same sharing, written by the library instead of the program
         return True
-    return P.shares_variable(prog) and any(s["op"] in ("getitem", "getitem_list", "take") for s in prog["stmts"])
+    # explicit sharing under a slice, or under a rechunk that is pushed through a concatenate/stack of the
+    # shared variable (the pushdown slices each part: concatenate([x, x, repeat(x)]).rechunk(...))
+    return P.shares_variable(prog) and any(s["op"] in ("getitem", "getitem_list", "take", "rechunk", "rechunk_auto") for s in prog["stmts"])
 
 
 def _register():
